@@ -130,3 +130,11 @@ Theorem accepted_multiplier_fees_defined :
   exists f, fees_for mult cf sf gas = Some f.
 Proof. exact valid_multiplier_fees_defined. Qed.
 Print Assumptions accepted_multiplier_fees_defined.
+
+(** 6. Scope of the history theorems: [step] has no reassignment operation because no production code
+    calls ReassignOrphanedMessages / reassignMessageValidator (call-graph inventory regenerated from the
+    source on every check).  A new caller breaks this step, and the harness then reports the stale-fee
+    witness it replays on the real keeper as a violation. *)
+Theorem reassign_has_no_production_caller : Gen.C14.reassign_production_callers = [].
+Proof. exact reassign_not_reachable. Qed.
+Print Assumptions reassign_has_no_production_caller.
